@@ -77,7 +77,10 @@ def catalogue(cf, arms, is_ts):
             "pfit_ctx_wrong_columns": lambda m: m.partial_fit([a0, a1], [1, 1], copy.deepcopy(x3)),
             "pfit_ctx_wrong_columns_rev": lambda m: m.partial_fit([a1, a0], [1, 1], copy.deepcopy(x3)),
             "pfit_ctx_one_column": lambda m: m.partial_fit([a0, a1], [1, 1], [[0], [1]]),
-            "fit_one_row": lambda m: m.fit([a1], [1], [[0, 0]]),          # rejected under Clusters / KNearest only
+            "fit_one_row": lambda m: m.fit([a1], [1], [[0, 0]]),          # rejected under Clusters only (inside training)
+            "fit_one_row_other_width": lambda m: m.fit([a1], [1], [[0, 0, 0]]),      # same, with another feature count
+            "fit_other_width_nan_reward": lambda m: m.fit([a0, a1], [1, NAN], copy.deepcopy(x3)),
+            "fit_other_width_len_mismatch": lambda m: m.fit([a0, a1], [1], copy.deepcopy(x3)),
             "predict_wrong_columns": lambda m: m.predict(copy.deepcopy(x3)),
             "expectations_wrong_columns": lambda m: m.predict_expectations(copy.deepcopy(x3)),
             "predict_no_contexts": lambda m: m.predict(),
